@@ -341,6 +341,9 @@ def check(case):
                     fixed_names = None          # names changed: the by-name bookkeeping below no longer applies
                 if fixed_names and isinstance(m, chi.ReducedPopulationModel):
                     inner = m.get_population_model().get_parameter_names()
+                    # a fixed parameter that ceases to exist (an individual of a heterogeneous part when the number
+                    # of individuals shrinks) is forgotten; whether it is fixed again when it reappears is not stated
+                    fixed_names = set(nm for nm in fixed_names if nm in inner)
                     if len(set(inner)) == len(inner):
                         still = [nm for nm in inner if nm not in fixed_names]
                         case.equal(m.get_parameter_names(), still,
@@ -373,7 +376,7 @@ def check(case):
         with case.clause('construct'):
             if s['default_names']:
                 lls = [llbuild.build_ll(ll, ident=None if s['ids'] is None else s['ids'][i]) for i, ll in enumerate(s['lls'])]
-                pm = ref.build_pop(s['pop'], None, None if s.get('late') else s['n_ids'])
+                pm = hbuild.build_population(s, None)
                 H = chi.HierarchicalLogLikelihood(
                     lls, pm, covariates=None if s['cov'] is None else np.array(s['cov'], dtype=float))
             else:
